@@ -39,8 +39,8 @@ CLAIMED = {
   note="The claim is about P's clauses, not about all byte strings: go/parser and go/scanner are not executed symbolically. Shapes are hand-built from reading go/parser (go1.23).",
   design="5/C15"),
  "C19": dict(
-  text="All paths of Append/Prepend/Replace/Clear/All are executed symbolically from go/ssa for every list state (len<=3, spare cap<=2, nil/empty), every argument shape (fresh array with spare capacity, view of the list's own elements, nil) and, in sequences of 2 (quick) / 4 (thorough) operations, against a reference []string; element bytes are solver-ranged, aliasing is decided on the engine's concrete heap; append growth capacity is forked {needed, needed+1}. Bounded model checking, not a proof.",
-  note="Bounds: len<=3, spare<=2, argument len<=3, <=4 operations. Trusted: gosym's SSA semantics (validated by native replay of witness paths), z3.",
+  text="All paths of Append/Prepend/Replace/Clear/All are executed symbolically from go/ssa for every list state (len<=3, spare cap<=2, nil/empty), every argument shape (fresh array with spare capacity, view of the list's own elements, nil) and, in sequences of 2 (quick) / 3 (thorough) operations, against a reference []string; element bytes are solver-ranged, aliasing is decided on the engine's concrete heap; append growth capacity is forked {needed, needed+1}. Bounded model checking, not a proof.",
+  note="Bounds: len<=3, spare<=2, argument len<=3, <=3 operations. Trusted: gosym's SSA semantics (validated by native replay of witness paths), z3.",
   design="5/C19"),
 }
 
